@@ -6,5 +6,6 @@ import "verifharness/lts"
 func LTSSubjects(variant string) map[string]lts.Subject {
 	return map[string]lts.Subject{
 		"xlist": XList{},
+		"deque": Deque{},
 	}
 }
